@@ -744,6 +744,10 @@ def analyse_region(kernel, R, pre, inner):
         if len(mm)!=1: raise TranslateError(where+": argument %r"%a)
         offs.append(allowed[re.sub(r"\s+","",mm[0])])
     if offs[0]!=("cur",-1): raise TranslateError(where+": first argument is not the left neighbour")
+    # the text of the recurrence: which terms carry the penalty, and how the cell is stored
+    rec_args = [re.sub(r"wps\[[^\]]+\]", "W", re.sub(r"\s+", "", a)) for a in args]
+    store = "d+" + m3.group(1) if re.search(r"wps\[ri_width\+wpsi\]=d\+%s\(" % m3.group(1), re.sub(r"\s+", "", cell)) else "other"
+    recurrence = "%s:%s;store=%s" % (m3.group(1), ",".join(rec_args), store)
     if offs[1][0]!="prev" or offs[2][0]!="prev": raise TranslateError(where+": diagonal/up arguments")
     # loops over i: the head fill (D) and the tail fill
     iloops=re.findall(r"for\s*\(\s*idx_t\s+i\s*=\s*([^;]+);\s*i\s*<\s*([^;]+);\s*i\+\+\s*\)",inner)
@@ -757,7 +761,8 @@ def analyse_region(kernel, R, pre, inner):
             "wpsi0": "1" if wpsi0=="1" else state.get("wpsi_start"),
             "d_min": 1 if "min_ci" in incs else 0, "d_max": 1 if ("max_ci" in incs and hi=="max_ci") else 0,
             "d_wpsi": 1 if ("wpsi_start" in incs and wpsi0=="wpsi_start") else 0,
-            "off_diag":offs[1][1],"off_up":offs[2][1],"head_fill":head in iloops,"row0_store":"ri_width" in idx,"skips":skips}
+            "off_diag":offs[1][1],"off_up":offs[2][1],"head_fill":head in iloops,"row0_store":"ri_width" in idx,"skips":skips,
+            "recurrence":recurrence}
 
 def analyse_fill():
     txt=canon_c(strip_comments(open(os.path.join(REPO,"src/DTAIDistanceC/DTAIDistanceC/dd_dtw.c")).read()))
@@ -792,16 +797,16 @@ def emit_fill(res):
            "  fr_wpsi0 : Z -> Z -> Z -> Z -> Z -> Z -> Z -> Z;  (* slot of column min_ci in the first row of the region *)",
            "  fr_dmin : Z; fr_dmax : Z; fr_dwpsi : Z;           (* per-row increments *)",
            "  fr_offdiag : Z; fr_offup : Z;                     (* previous-row read offsets relative to the slot *)",
-           "  fr_head_fill : bool; fr_row0_store : bool; fr_skip : string }.","",
+           "  fr_head_fill : bool; fr_row0_store : bool; fr_skip : string; fr_recurrence : string }.","",
            "Definition fill_regions : list fill_region := ["]
     rows=[]
     scs={k[1]:v for k,v in res.items() if k[0]=="sc"}
     res={k:v for k,v in res.items() if k[0]!="sc"}
     for (k,R),v in res.items():
         f=lambda e: "(fun %s => %s)"%(ARGS[1:-5].strip(), e)
-        rows.append('  {| fr_kernel := "%s"; fr_region := R%s;\n     fr_min0 := fun l2 window ldiff ldiffr ldiffc ri2 ri3 => %s;\n     fr_max0 := fun l2 window ldiff ldiffr ldiffc ri2 ri3 => %s;\n     fr_wpsi0 := fun l2 window ldiff ldiffr ldiffc ri2 ri3 => %s;\n     fr_dmin := %d; fr_dmax := %d; fr_dwpsi := %d; fr_offdiag := %s; fr_offup := %s;\n     fr_head_fill := %s; fr_row0_store := %s; fr_skip := "%s" |}'%(
+        rows.append('  {| fr_kernel := "%s"; fr_region := R%s;\n     fr_min0 := fun l2 window ldiff ldiffr ldiffc ri2 ri3 => %s;\n     fr_max0 := fun l2 window ldiff ldiffr ldiffc ri2 ri3 => %s;\n     fr_wpsi0 := fun l2 window ldiff ldiffr ldiffc ri2 ri3 => %s;\n     fr_dmin := %d; fr_dmax := %d; fr_dwpsi := %d; fr_offdiag := %s; fr_offup := %s;\n     fr_head_fill := %s; fr_row0_store := %s; fr_skip := "%s"; fr_recurrence := "%s" |}'%(
             k,R,v["min_ci0"],v["max_ci0"],v["wpsi0"],v["d_min"],v["d_max"],v["d_wpsi"],
-            "(%d)"%v["off_diag"],"(%d)"%v["off_up"],"true" if v["head_fill"] else "false","true" if v["row0_store"] else "false",",".join(v["skips"])))
+            "(%d)"%v["off_diag"],"(%d)"%v["off_up"],"true" if v["head_fill"] else "false","true" if v["row0_store"] else "false",",".join(v["skips"]),v["recurrence"]))
     lines.append(";\n".join(rows)); lines.append("].")
     lines.append("")
     lines.append("(* right-hand sides of every assignment to the pruning bound sc, per kernel *)")
